@@ -143,6 +143,26 @@ def _contexts(eager: bool = True):
     return core, full
 
 
+_LAZY_FULL: Any = None
+
+
+def _lazy_full():
+    """A context with every dialect *registered but not loaded* (what xdsl-opt starts from).
+    It is never parsed with itself: every parse gets a clone, which loads the dialects it
+    meets; the dialect modules are already imported (``_contexts(eager=True)`` ran first),
+    so a lazy load costs a few thousand calls, not an import."""
+    global _LAZY_FULL
+    if _LAZY_FULL is None:
+        from xdsl.context import Context
+        from xdsl.dialects import get_all_dialects
+
+        _contexts(True)
+        _LAZY_FULL = Context(allow_unregistered=True)
+        for n, f in get_all_dialects().items():
+            _LAZY_FULL.register_dialect(n, f)
+    return _LAZY_FULL
+
+
 def _repo_fingerprint() -> str:
     h = hashlib.sha256()
     files = sorted(glob.glob(f"{REPO}/tests/filecheck/**/*.mlir", recursive=True)) + sorted(
@@ -370,7 +390,7 @@ class Judge:
     def __init__(self) -> None:
         self.core, self.full = _contexts()
 
-    def parse(self, text: str, wl: int, cpu_scale: float = 1.0) -> dict[str, Any]:
+    def parse(self, text: str, wl: int, cpu_scale: float = 1.0, lazy: bool = False) -> dict[str, Any]:
         """Run the pipeline on ``text`` under both clocks; classify the outcome."""
         from xdsl.parser import Parser
         from xdsl.utils.exceptions import DiagnosticException, ParseError, VerifyException
@@ -382,7 +402,7 @@ class Judge:
         # `return` outside func.func becomes a known unregistered op and then shadows the
         # dialect-stack lookup of `func.return` in every later parse), so a shared context
         # makes the outcome of a parse depend on what was parsed before
-        ctx = (self.core if wl == 0 else self.full).clone()
+        ctx = (self.core if wl == 0 else (_lazy_full() if lazy else self.full)).clone()
         res: dict[str, Any] = {"outcome": "", "events": 0}
         _clock["n"] = 0
         _clock["budget"] = STEP_K * (len(text) + 64)
@@ -695,8 +715,17 @@ def synth_text(cfg: Stream) -> tuple[str, str]:
         # typed literals: every literal spelling against every scalar type, in each literal context
         lit = _LITS[cfg.choice(len(_LITS))]
         ty = _SCALAR_TYPES[cfg.choice(len(_SCALAR_TYPES))]
-        ctxk = cfg.choice(7)
+        ctxk = cfg.choice(9)
         n = (0, 1, 2, 3)[cfg.choice(4)]
+        if ctxk >= 7:
+            # one unregistered dialect name met as attribute, as type, opaque and pretty, in both orders
+            forms = (f"#un.known<{lit}>", f"!un.known<{ty}>", "#un.known", "!un.known", f'#un<"{lit}">', "!un<x>", f"#un.other<{lit}>", "!un.other")
+            a, b2, c = (forms[cfg.choice(len(forms))] for _ in range(3))
+            if ctxk == 7:
+                t = f'"y"() {{a = {a}, b = {b2}}} : () -> ()\n"z"() {{c = {c}}} : () -> ()\n'
+            else:
+                t = f'%0 = "y"() {{a = {a}}} : () -> (!un.known)\n"z"(%0) {{c = {c}}} : (!un.known) -> ()\n'
+            return t, f"typed-literal(ctx={ctxk}, unregistered forms {a!r}, {b2!r}, {c!r})"
         if ctxk == 0:
             t = f'"y"() {{a = {lit} : {ty}}} : () -> ()\n'
         elif ctxk == 1:
@@ -713,7 +742,15 @@ def synth_text(cfg: Stream) -> tuple[str, str]:
             t = f'"y"() {{a = sparse<[[0]], [{lit}]> : tensor<{n + 1}x{ty}>, b = dense_resource<k> : tensor<{n}x{ty}>, c = #builtin.int<{lit}>, d = loc("f":{lit}:{lit})}} : () -> ()\n'
         return t, f"typed-literal(ctx={ctxk}, lit={(lit if len(lit) < 40 else lit[:6] + '...(' + str(len(lit)) + ' chars)')!r}, type={ty!r})"
     # fam 6: SSA names, indices and block labels at their boundaries
-    k = cfg.choice(6)
+    k = cfg.choice(8)
+    if k >= 6:
+        names = ("_0", "_7", "_", "__1", "a_0", "a_", "0_0", "x_18446744073709551616", "_0_0", "$", "a.b_2", "-", "arg_00")
+        nm = names[cfg.choice(len(names))]
+        if k == 6:
+            t = f'%{nm} = "x"() : () -> i32\n"y"(%{nm}) : (i32) -> ()\n"r"() ({{\n^bb0(%{nm}_1 : i32, %{nm} : i32):\n  "z"(%{nm}) : (i32) -> ()\n}}) : () -> ()\n'
+        else:
+            t = f'"r"() ({{\n  "b"()[^{nm}] : () -> ()\n^{nm}(%a : i32):\n  "y"(%a)[^{nm}, ^{nm}] : (i32) -> ()\n}}) : () -> ()\n'
+        return t, f"ssa-boundary(kind={k}, name={nm!r})"
     idxs = ("0", "1", "2", "-1", "-2", "007", "18446744073709551616", "9" * 30) + _LONG_NUMS
     idx = idxs[cfg.choice(len(idxs))]
     if k == 0:
@@ -1010,7 +1047,12 @@ class StreamEngine(Engine):
                 descs.append(d)
         if tr is not None:
             tr.append(f"file {corpus.names[ci]} workload {(('W4-synthetic ' + w4_label) if w4_label else 'W3-token-sequence' if w3 else 'W1-core-generic') if wl == 0 else 'W2-full-custom'} len {len(text)} faults {descs} -> len {len(damaged)} crc {zlib.crc32(damaged.encode('utf-8', 'replace')):08x}")
-        out = judge.parse(damaged, wl)
+        # W2: half of the parses start from a context whose dialects are registered but not
+        # loaded yet (a clone of one shared parent, as xdsl-opt --split-input-file does)
+        lazy = bool(wl == 1 and mode == 0 and cfg.choice(2))
+        if lazy:
+            st["workload.W2_lazy_dialect_loading"] += 1
+        out = judge.parse(damaged, wl, lazy=lazy)
         oc = out["outcome"]
         if oc == "timeout":
             # confirm by re-executions with a doubled CPU budget (skipped once the same
@@ -1018,7 +1060,7 @@ class StreamEngine(Engine):
             # cost minutes per input)
             site = out["site"]
             if _CONFIRMED[site] < 3:
-                again = [judge.parse(damaged, wl, 2.0) for _ in range(2)]
+                again = [judge.parse(damaged, wl, 2.0, lazy=lazy) for _ in range(2)]
                 if all(a["outcome"] == "timeout" for a in again):
                     _CONFIRMED[site] += 1
                 else:
